@@ -36,15 +36,17 @@ def gen(tier, rng, reconnect_values=(0,)):
                "scheme": rng.choice(["ws", "wss"])}
     # 3. callbacks that raise / close / KeyboardInterrupt
     for cb in CBS:
-        for mode in ("raise", "close", "kbd"):
+        for mode in ("raise", "raise-closed", "close", "kbd"):
             if cb == "on_error" and mode != "kbd":
+                continue
+            if mode == "raise-closed" and cb in ("on_close", "on_reconnect"):
                 continue
             for tr in (TRAFFIC[2], TRAFFIC[3], TRAFFIC[5]):
                 for end in (ENDS[0], ENDS[2]):
                     cbs = dict(allret)
                     cbs[cb] = mode
                     yield {"callbacks": cbs, "attempts": [{"evs": tr + end}]}
-                    if mode == "raise" and cb != "on_error":
+                    if mode in ("raise", "raise-closed") and cb != "on_error":
                         # a raising callback with NO on_error handler: the exception is logged and delivery continues
                         cbs2 = dict(cbs)
                         del cbs2["on_error"]
@@ -64,7 +66,9 @@ def gen(tier, rng, reconnect_values=(0,)):
 def gen_reconnect(tier, rng):
     allret = {c: "ret" for c in CBS}
     outcomes = [{"refuse": True}, {"status": 503}, {"evs": [("BC",)]}, {"evs": [FR["text"], ("BR",)]}, {"evs": [FR["bin"], ("T",)]},
-                {"evs": [FR["text"], FR["close"]]}, {"evs": [("BP",)]}]
+                {"evs": [FR["text"], FR["close"]]}, {"evs": [("BP",)]},
+                # losses in the middle of a message and in the middle of a frame: nothing of them may survive into the next connection
+                {"evs": [FR["tfrag0"], ("BC",)]}, {"evs": [FR["text"], ("P", "827e"), ("BR",)]}, {"evs": [("P", "81"), ("BC",)]}]
     L = 3 if tier == "quick" else 5
     for k in range(1, L + 1):
         for seq in itertools.product(range(len(outcomes)), repeat=k):
@@ -104,8 +108,15 @@ def compare(ctx, T, scs, bucket):
     outs = ctx.model.run_parallel([model_line(sc) for sc in scs]) if ctx.model else [None] * len(scs)
     results = []
     for sc, mo in zip(scs, outs):
+        if T.saturated("spec") or T.saturated("corr"):
+            break
         res, il = run_one(sc)
         results.append((sc, res, il, mo))
+        if res.get("runaway"):
+            T.fail("spec", {"scenario": model_line(sc), "sc": sc}, "the run ends once the scripted server has closed the last connection",
+                   f"still opening connections after {len(res['attempts'])} attempts: {il[:160]}", {"site": "reconnect", "cls": "runaway-reconnect"},
+                   what="the application kept reconnecting although the last scripted connection should have ended the run")
+            continue
         T.case(model_line(sc), nontrivial=True, bucket=bucket, sample={"scenario": model_line(sc)[:200], "impl": il[:200]})
         if res.get("stuck"):
             T.fail("spec", sc, "run_forever returns", "stuck: " + res["stuck"][:200], {"site": "run_forever", "cls": "does-not-return"},
@@ -139,7 +150,7 @@ def expected_callbacks(sc, items):
         m = cbs.get(name)
         if m is None:
             return []
-        return [ev] + (err if m == "raise" else [])
+        return [ev] + (err if m in ("raise", "raise-closed") else [])
     out = cb("on_open", "open")
     for it in items:
         if it.startswith("M"):
@@ -212,7 +223,7 @@ def judge_c14(T, sc, res, il):
             T.fail("spec", pub, "on_close exactly once", f"{len(closes)} times: {tr}"[:300], {"site": "teardown", "cls": "on-close-count"})
             return
         after = tr[closes[0] + 1:]
-        allowed = ["err:Callback"] if (cbs.get("on_close") == "raise" and cbs.get("on_error")) else []
+        allowed = ["err:Callback"] if (cbs.get("on_close") in ("raise", "raise-closed") and cbs.get("on_error")) else []
         if after != allowed:
             shape = "on_close-raises-kbd" if cbs.get("on_close") == "kbd" else "other"
             T.fail("spec", pub, "on_close is the last callback", str(tr[closes[0]:])[:200], {"site": "teardown", "cls": "callback-after-on-close", "shape": shape},
@@ -242,7 +253,7 @@ def judge_c14(T, sc, res, il):
             if c != ["close", "None", "None"]:
                 T.fail("spec", pub, "on_close(None, None) after an illegal close frame", str(c), {"site": "teardown", "cls": "close-args"})
                 return
-        elif consumed_close is not None and not any(m in ("close", "kbd", "raise") for m in cbs.values()) and len(sc["attempts"]) == 1 \
+        elif consumed_close is not None and not any(m in ("close", "kbd", "raise", "raise-closed") for m in cbs.values()) and len(sc["attempts"]) == 1 \
                 and not any(e[0] in ("O",) for e in last["evs"]):
             body = bytes.fromhex(consumed_close[3])
             from corr.appcommon import reason_digest
